@@ -1,7 +1,241 @@
 import Firefly.Model.Spin
-namespace Firefly.C08
-open Firefly.Spin
+import Firefly.Proof.Spin
+import Firefly.Proof.SpinInv
+import Firefly.Proof.SpinRun
+/-!
+# C08 — Spinlock gives mutual exclusion; try-acquire never lies
 
-theorem placeholder_partial : (init 0).sh.lock = 0 := rfl
+Statement (properties.jsonl): at most one task holds a spinlock at any time: a blocking acquire
+returns only while no one else holds the lock, a try-acquire returns true exactly when it took the
+lock and false without side effects when someone else holds it, and after a release the lock can
+be taken again. Work done inside the lock by one holder is visible to the next holder.  For every
+interleaving of blocking acquires, try-acquires and releases by any number of tasks.
+
+All theorems are about the machine of `Model/Spin.lean` running the **generated** programs
+`Gen.C08.acquireAsm` (from `spinlock_amd64.s`), `acquireGo`, `tryGo`, `releaseGo` (from
+`spinlock.go`): for every configuration `cfg` (address of the lock word, nil or non-nil
+`yieldFn`), every number of threads `n`, every schedule (`Reachable cfg n s`), every value the
+yield function leaves in the registers.  Interleaving is sequentially consistent; x86-TSO and real
+parallelism are outside the model (trusted: XCHG is a full barrier, `sync/atomic` is sequentially
+consistent).  Starvation freedom is not claimed (a test-and-set lock has none).
+
+`Owner t` (Proof/Spin.lean): `t` is a holder (`t.held`: Acquire returned / TryToAcquire returned
+true, Release not yet called), or has won the exchange inside Acquire/TryToAcquire and not yet
+returned, or has called Release and not yet executed its store.
+-/
+namespace Firefly.C08
+open Firefly.Spin Firefly.Gen.C08
+
+/-- **mutex** — in every reachable state at most one thread is a holder. -/
+theorem mutex {cfg : Config} {n : Nat} {s : State} (hr : Reachable cfg n s)
+    {i j : Nat} {ti tj : Thread} (hi : s.threads[i]? = some ti) (hj : s.threads[j]? = some tj)
+    (hhi : ti.held = true) (hhj : tj.held = true) : i = j :=
+  (reachable_inv hr).uniq i j ti tj hi hj (Or.inl hhi) (Or.inl hhj)
+
+/-- **mutex_owners** — stronger: at most one thread *owns* the lock, counting threads that have
+won the exchange but not yet returned and threads in `Release` before their store. -/
+theorem mutex_owners {cfg : Config} {n : Nat} {s : State} (hr : Reachable cfg n s)
+    {i j : Nat} {ti tj : Thread} (hi : s.threads[i]? = some ti) (hj : s.threads[j]? = some tj)
+    (hoi : Owner ti) (hoj : Owner tj) : i = j :=
+  (reachable_inv hr).uniq i j ti tj hi hj hoi hoj
+
+/-- **lock_word** — the lock word is always 0 or 1, and it is 1 exactly when some thread owns the
+lock (a holder, a winner that has not returned yet, or a releaser that has not stored yet). -/
+theorem lock_word {cfg : Config} {n : Nat} {s : State} (hr : Reachable cfg n s) :
+    (s.sh.lock = 0 ∨ s.sh.lock = 1) ∧
+    (s.sh.lock = 1 ↔ ∃ (i : Nat) (t : Thread), s.threads[i]? = some t ∧ Owner t) := by
+  have hI := reachable_inv hr
+  exact ⟨hI.word, hI.own1, fun ⟨i, t, hi, ho⟩ => hI.own0 i t hi ho⟩
+
+/-- **acquire_returns_only_when_free** — for a step of thread `i` inside `archAcquireSpinlock`
+(instruction `pc` of the generated program):
+(1) `RET` is executed only by a thread that owns the lock, and only `RET` leaves the function;
+(2) ownership is gained only by instruction 3, `XCHGL 0(AX), BX`, executed while the lock word was
+    0 — so no other thread owned the lock at that moment — and it leaves the word at 1;
+(3) ownership, once gained, is kept until the return (and the word stays 1). -/
+theorem acquire_returns_only_when_free {cfg : Config} {n : Nat} {s s' : State} (hr : Reachable cfg n s)
+    {i : Nat} {ch : Choice} {t t' : Thread} {m : Method} {rpc pc : Nat}
+    (hi : s.threads[i]? = some t) (hph : t.ph = .asm m rpc pc)
+    (hs : step cfg s i ch = some s') (hi' : s'.threads[i]? = some t') :
+    (acquireAsm[pc]? = some .ret → Owner t) ∧
+    (∀ m' pc', t'.ph = .go m' pc' → acquireAsm[pc]? = some .ret) ∧
+    (¬ Owner t → Owner t' →
+      acquireAsm[pc]? = some (.xchgl (.mem .AX 0) (.reg .BX)) ∧ s.sh.lock = 0 ∧ s'.sh.lock = 1 ∧
+      ∀ (j : Nat) (tj : Thread), s.threads[j]? = some tj → ¬ Owner tj) ∧
+    (Owner t → Owner t' ∧ s'.sh.lock = 1) := by
+  have hI := reachable_inv hr
+  obtain ⟨t0, sh', t1, hi0, hts, rfl⟩ := step_cases hs
+  rw [hi] at hi0; cases hi0
+  rw [get_set_self hi] at hi'; cases hi'
+  have : ∃ hv, (sh', t') = asmStep cfg s.sh t m rpc pc hv := by
+    unfold tstep at hts
+    rw [hph] at hts
+    cases ch <;> simp at hts
+    · exact ⟨none, hts.symm⟩
+    · exact ⟨_, hts.symm⟩
+  obtain ⟨hv, he⟩ := this
+  have h := asm_own cfg s.sh t rpc pc m hv hph (hI.loc i t hi) hI.word (hI.own0 i t hi)
+  simp only [← he] at h
+  obtain ⟨h1, h2, h3, h4⟩ := h
+  refine ⟨h3, h4, ?_, h1⟩
+  intro hno ho'
+  obtain ⟨rfl, h0, h1'⟩ := h2 hno ho'
+  refine ⟨rfl, h0, h1', ?_⟩
+  intro j tj hj hoj
+  have := hI.own0 j tj hj hoj
+  omega
+
+/-- **try_exact** — a step of thread `i` inside `TryToAcquire` (generated body `tryGo`):
+at index 0 it atomically reads the lock word into `tmp` and leaves 1 there — when the word was
+already 1 the shared state is unchanged (1 rewritten over 1); at index 1 it returns
+`tmp == 0` without touching shared state: `true` exactly when its swap read 0, and then the caller
+is a holder and the only one; `false` leaves the caller's `held` as it was.  No step of
+`TryToAcquire` changes any other thread. -/
+theorem try_exact {cfg : Config} {n : Nat} {s s' : State} (hr : Reachable cfg n s)
+    {i : Nat} {ch : Choice} {t t' : Thread} {pc : Nat}
+    (hi : s.threads[i]? = some t) (hph : t.ph = .go .try_ pc)
+    (hs : step cfg s i ch = some s') (hi' : s'.threads[i]? = some t') :
+    (pc = 0 ∨ pc = 1) ∧
+    (pc = 0 → t'.ph = .go .try_ 1 ∧ t'.tmp = s.sh.lock ∧ s'.sh.lock = 1 ∧ s'.sh.ctr = s.sh.ctr ∧
+      t'.held = t.held ∧ (s.sh.lock ≠ 0 → s'.sh = s.sh)) ∧
+    (pc = 1 → t'.ph = .idle ∧ t'.ret = some (t.tmp == 0) ∧ s'.sh = s.sh ∧
+      (t.tmp = 0 → t'.held = true ∧
+        ∀ (j : Nat) (tj : Thread), s'.threads[j]? = some tj → tj.held = true → j = i) ∧
+      (t.tmp ≠ 0 → t'.held = t.held)) ∧
+    (∀ j, j ≠ i → s'.threads[j]? = s.threads[j]?) := by
+  have hI := reachable_inv hr
+  have hr' : Reachable cfg n s' := Reachable.step i ch hr hs
+  have hoth := fun j (hne : j ≠ i) => step_other (j := j) hs hne
+  obtain ⟨t0, sh', t1, hi0, hts, rfl⟩ := step_cases hs
+  rw [hi] at hi0; cases hi0
+  have hi'' := hi'
+  rw [get_set_self hi] at hi'; cases hi'
+  have hL := hI.loc i t hi
+  simp only [Local, hph] at hL
+  have hpc : pc = 0 ∨ pc = 1 := by omega
+  have he : (sh', t') = goStep s.sh t .try_ pc := by
+    unfold tstep at hts
+    rw [hph] at hts
+    cases ch <;> simp at hts <;> exact hts.symm
+  refine ⟨hpc, ?_, ?_, hoth⟩
+  · rintro rfl
+    simp [goStep, body, tryGo, two32] at he
+    obtain ⟨rfl, rfl⟩ := he
+    refine ⟨rfl, rfl, rfl, rfl, rfl, ?_⟩
+    intro hne
+    rcases hI.word with h | h
+    · exact absurd h hne
+    · cases hsh : s.sh; simp [hsh] at h ⊢; exact h.symm
+  · rintro rfl
+    simp [goStep, body, tryGo, finish] at he
+    obtain ⟨rfl, rfl⟩ := he
+    refine ⟨rfl, rfl, rfl, ?_, ?_⟩
+    · intro h0
+      refine ⟨by simp [h0], ?_⟩
+      intro j tj hj hhj
+      exact mutex hr' hj hi'' hhj (by simp [h0])
+    · intro hne
+      have : (t.tmp == 0) = false := by simpa using hne
+      simp [this]
+
+/-- **release_reacquirable** — the store of `Release` leaves the lock word 0; and in every
+reachable state whose lock word is 0, any idle thread `i` that runs alone takes the lock in a
+bounded number of steps: 3 moves through `TryToAcquire` (which returns `true`), 10 moves through
+`Acquire` — afterwards it is a holder and the word is 1. -/
+theorem release_reacquirable {cfg : Config} {n : Nat} {s : State} (hr : Reachable cfg n s)
+    {i : Nat} {t : Thread} (hi : s.threads[i]? = some t) :
+    (∀ ch s' t', t.ph = .go .release 0 → step cfg s i ch = some s' → s'.threads[i]? = some t' →
+      s'.sh.lock = 0 ∧ t'.ph = .go .release 1) ∧
+    (s.sh.lock = 0 → t.ph = .idle →
+      (∃ s' t', runSched cfg s (solo i tryMoves) = some s' ∧ s'.threads[i]? = some t' ∧
+        t'.ph = .idle ∧ t'.held = true ∧ t'.ret = some true ∧ s'.sh.lock = 1) ∧
+      (∃ s' t', runSched cfg s (solo i acquireMoves) = some s' ∧ s'.threads[i]? = some t' ∧
+        t'.ph = .idle ∧ t'.held = true ∧ s'.sh.lock = 1)) := by
+  have hI := reachable_inv hr
+  constructor
+  · intro ch s' t' hph hs hi'
+    obtain ⟨t0, sh', t1, hi0, hts, rfl⟩ := step_cases hs
+    rw [hi] at hi0; cases hi0
+    rw [get_set_self hi] at hi'; cases hi'
+    unfold tstep at hts
+    rw [hph] at hts
+    cases ch <;> simp [goStep, body, releaseGo, two32] at hts <;>
+      (obtain ⟨rfl, rfl⟩ := hts; exact ⟨rfl, rfl⟩)
+  · intro h0 hph
+    have hh : t.held = false := by
+      cases h : t.held
+      · rfl
+      · have := hI.own0 i t hi (Or.inl h); omega
+    constructor
+    · obtain ⟨t', hrun, h1, h2, h3⟩ := try_alone cfg s.sh t h0 hph
+      exact ⟨_, t', runSched_solo cfg i tryMoves s t _ t' hi hrun, get_set_self hi, h1, h2, h3, rfl⟩
+    · obtain ⟨t', hrun, h1, h2⟩ := acquire_alone cfg s.sh t h0 hph hh
+      exact ⟨_, t', runSched_solo cfg i acquireMoves s t _ t' hi hrun, get_set_self hi, h1, h2, rfl⟩
+
+/-- **handover_visible** — with a plain protected counter that holders read and then write back
+incremented inside their critical sections, the counter always equals the number of completed
+increments (no lost update: every holder saw the writes of all previous holders), and a value a
+holder has read and not yet written back is still the current one.  Proved under sequentially
+consistent interleaving. -/
+theorem handover_visible {cfg : Config} {n : Nat} {s : State} (hr : Reachable cfg n s) :
+    s.sh.ctr = s.sh.incs ∧
+    ∀ (i : Nat) (t : Thread) (v : Nat), s.threads[i]? = some t → t.loc = some v → v = s.sh.ctr ∧ t.held = true :=
+  ⟨(reachable_inv hr).ctr, (reachable_inv hr).cs⟩
+
+/-- **deadlock_free** — in every reachable state no thread has faulted and every thread can make
+a step (nothing ever blocks: waiting is spinning); and if the thread that owns the lock keeps
+stepping (finishing its call, then calling `Release`) the lock word becomes 0 within 7 of its own
+moves, whatever state the other threads are in.  (Starvation freedom is not claimed.) -/
+theorem deadlock_free {cfg : Config} {n : Nat} {s : State} (hr : Reachable cfg n s)
+    {i : Nat} {t : Thread} (hi : s.threads[i]? = some t) :
+    t.ph ≠ .fault ∧
+    (∃ ch s', step cfg s i ch = some s') ∧
+    (Owner t → ∃ chs s', chs.length ≤ 7 ∧ runSched cfg s (solo i chs) = some s' ∧ s'.sh.lock = 0) := by
+  have hI := reachable_inv hr
+  have hL := hI.loc i t hi
+  refine ⟨?_, ?_, ?_⟩
+  · intro h; simp [Local, h] at hL
+  · obtain ⟨ch, ⟨sh', t'⟩, h⟩ := can_step cfg s.sh t hL
+    exact ⟨ch, { sh := sh', threads := s.threads.set i t' }, by simp [step, hi, h]⟩
+  · intro ho
+    obtain ⟨chs, sh', t', hlen, hrun, h0⟩ := owner_can_free cfg s.sh t hL ho
+    exact ⟨chs, _, hlen, runSched_solo cfg i chs s t sh' t' hi hrun, h0⟩
+
+/-! ## Non-vacuity: concrete schedules of the generated programs -/
+
+private theorem reach_of_run {cfg : Config} {n : Nat} {sched : List (Nat × Choice)} (p : State → Bool)
+    (h : (runSched cfg (init n) sched).any p = true) : ∃ s, Reachable cfg n s ∧ p s = true := by
+  cases hrun : runSched cfg (init n) sched with
+  | none => simp [hrun] at h
+  | some s => exact ⟨s, runSched_reachable sched Reachable.init hrun, by simpa [hrun] using h⟩
+
+/-- lock word at 4096, a non-nil yield function -/
+def exCfg : Config := { lockAddr := 4096, yieldFn := 8192 }
+
+def inAsm (t : Thread) : Bool := match t.ph with | .asm .. => true | _ => false
+
+/-- Thread 0 takes the lock with TryToAcquire; thread 1 calls Acquire, loses the exchange, spins,
+calls the yield function (which clobbers its registers) and keeps spinning: the lock word is 1,
+thread 0 is the holder, thread 1 is inside the assembly loop. -/
+example : ∃ s, Reachable exCfg 2 s ∧
+    (s.sh.lock == 1 && s.threads[0]?.any (·.held) && s.threads[1]?.any (fun t => inAsm t && !t.held)) = true :=
+  reach_of_run _ (by decide :
+    (runSched exCfg (init 2) (solo 0 tryMoves ++ solo 1 (.callAcquire :: .run :: List.replicate 20 (.havoc 7 7 7 7 false)))).any _ = true)
+
+/-- Hand-over: thread 0 acquires, increments the protected counter, releases; thread 1 (with
+`yieldFn = nil`, as in the kernel) then acquires through the assembly path and increments what it
+reads: the counter is 2 = completed increments. -/
+example : ∃ s, Reachable { lockAddr := 4096, yieldFn := 0 } 2 s ∧
+    (s.sh.ctr == 2 && s.sh.incs == 2 && s.sh.lock == 1 && s.threads[1]?.any (·.held)) = true :=
+  reach_of_run _ (by decide :
+    (runSched { lockAddr := 4096, yieldFn := 0 } (init 2)
+      (solo 0 (acquireMoves ++ [.csRead, .csWrite] ++ releaseMoves) ++
+       solo 1 (acquireMoves ++ [.csRead, .csWrite]))).any _ = true)
+
+/-- A TryToAcquire on a held lock returns false and changes nothing shared. -/
+example : ∃ s, Reachable exCfg 2 s ∧
+    (s.sh.lock == 1 && s.threads[1]?.any (fun t => t.ret == some false && !t.held) && s.threads[0]?.any (·.held)) = true :=
+  reach_of_run _ (by decide :
+    (runSched exCfg (init 2) (solo 0 acquireMoves ++ solo 1 tryMoves)).any _ = true)
 
 end Firefly.C08
